@@ -282,7 +282,10 @@ def run_exp(ctx, p):
         S_ = gen.layout(S_, p['layout'])       # same values, another object: Fortran-ordered / frozen / strided / reversed strides
     try:
         if p.get('theta') is not None:
-            f(S_, p['theta'])
+            th = p['theta']
+            if p.get('thtype'):       # the same number as a NumPy scalar of another type / a Python int (values exactly representable there)
+                th = {'np.float64': np.float64, 'np.float32': np.float32, 'np.float16': np.float16, 'int': int, 'np.int64': np.int64}[p['thtype']](th)
+            f(S_, th)
         else:
             f(S_)
     except Exception:
@@ -463,6 +466,10 @@ def run(ctx):
                 U = np.r_[u, np.zeros(nso)]
             if abs(np.linalg.norm(U[len(U) - nso:]) - 1) < 1e-15 or np.linalg.norm(U[len(U) - nso:]) == 0:
                 p = dict(dim=dim, S=U if rng.random() < 0.7 else (ref.skew(U) if kind == 'so' else ref.skewa(U)), theta=float(gen.angle(rng)))
+                if rng.random() < 0.3:
+                    tt = ['np.float64', 'np.float32', 'np.float16', 'int', 'np.int64'][rng.integers(5)]
+                    p['theta'] = float(rng.integers(-3, 4)) if tt.endswith(('int', 'int64')) else float(rng.integers(-24, 25)) / 8
+                    p['thtype'] = tt
         if rng.random() < 0.25:
             p['layout'] = gen.LAYOUTS[rng.integers(4)]
         drive(RUNNERS, ctx, 'exp', p)
